@@ -22,7 +22,7 @@ POOLS = {
 POOL_NAMES = ["dyadic", "decimal", "tie", "normalised", "mixed", "tiny"]
 
 ALPHA_CHARS = "abcxyz"
-SPECIAL_ALPHA = ["é", "ф", "α", "ñ"]          # é ф α ñ (1:1 case maps)
+SPECIAL_ALPHA = ["é", "ф", "α", "ñ", "ß", "ŉ", "ﬁ", "ǆ"]   # 1:1 case maps, plus letters whose upper() is 2 characters
 DIGITS = "0123456789"
 OTHERS = "!@#$ .-_"
 KEYB = ["1qaz", "qwer", "asdf", "1q2w", "zaq1", "2wsx"]
